@@ -14,7 +14,7 @@ import itertools
 
 from .. import qast as Q
 from ..common import (X, Y, Z, A, L, leaves_xy, leaves_xyz, leaves_self, XY_REP, rich_world, VARS3, VARS_SELF, tiny_domains,
-                      eval_rows, diff_rows, row_labels, is_exc, root_kind)
+                      eval_rows, eval_rows_after_partial, diff_rows, row_labels, is_exc, root_kind)
 from ..isolate import run_isolated
 from ..space import trees_by_depth, nonempty_ordered_selections
 from ..worlds import build_world
@@ -134,14 +134,24 @@ def run_case(case, inst):
         world = build_world(wspec, inst)
         got = eval_rows(q, world, inst)
         exp, sols = expected_rows(q, world, inst)
+        # the same query built afresh on a fresh world: its first evaluation is closed after one result, then it is
+        # evaluated fully
+        world2 = build_world(wspec, inst)
+        again = eval_rows_after_partial(q, world2, inst)
+        exp2, _ = expected_rows(q, world2, inst)
         total = 1
         for v in q[5]:
             total *= len(world[v[3]])
-        return got, exp, total
+        return got, again, exp, exp2, total
 
-    got, exp, total = run_isolated(body)
+    got, again, exp, exp2, total = run_isolated(body)
     all_selected = {v[0] for v in q[5]} <= {s[1] for s in q[3] if s[0] == "v"}
     d = diff_rows(got, exp, count=all_selected)
+    if d is None and again is not None:
+        # the same query object once more, after an evaluation that was closed after its first result
+        d = diff_rows(again, exp2, count=all_selected)
+        if d is not None:
+            d, got, exp = "after-abandoned-evaluation:" + d, again, exp2
     tree = case[1]
     res = {"ok": d is None, "nontrivial": 0 < len(exp) < total,
            "transitions": 1 + (0 if is_exc(got) else len(got)),
@@ -156,4 +166,5 @@ def run_case(case, inst):
 
 def describe(case, inst):
     return (Q.up_world(world_of(case), inst) + "\n" + Q.up_query(query_of(case), inst)
-            + "\nrows = [tuple(r[s] for s in selected) for r in q.evaluate()]   # expected: product filter, projected")
+            + "\nrows = [tuple(r[s] for s in selected) for r in q.evaluate()]   # expected: product filter, projected"
+            "\n# and, built afresh: it = q.evaluate(); next(it, None); it.close(); rows2 = [... for r in q.evaluate()]   # expected: the same")
